@@ -538,3 +538,24 @@ def real_effects(out):
         else:
             e.setdefault('other', []).append(msg)
     return e
+
+
+def sdiv(I, st, x, y):
+    """spec-side floor division that never constrains the path: q = floor(x/y) when y > 0, else 0."""
+    if isinstance(y, int):
+        if y > 0:
+            return I.idiv(st, x, y)[0]
+        return 0
+    q = I.fresh('sq')
+    r = I.fresh('sr')
+    st.add(z3.And(z3.Implies(y > 0, z3.And(x == q * y + r, r >= 0, r < y)), z3.Implies(y <= 0, q == 0), q >= 0))
+    xl, xh = I.bounds(x)
+    I.var_bounds[q.decl().name()] = (0, xh)
+    st.ghost['divs'] = st.ghost.get('divs', ()) + ((x, y, q, r),)
+    return q
+
+
+def spec_rate(I, st, B, claims):
+    """floor(B*1e18/claims), or 1 when either factor is zero (the contract's definition of an exchange rate)."""
+    q = sdiv(I, st, B * E, claims)
+    return z3.If(z3.Or(B == 0, claims == 0), E, q)
